@@ -85,6 +85,7 @@ def hInc (g : G) : Label → Nat → Nat
   | .lnRead e0, e => if e = e0 ∧ (g.ent e0).err = false then 1 else 0
   | .lsRead e0 _, e => if e = e0 ∧ (g.ent e0).err = false then 1 else 0
   | .lsLookup k, e => if g.pool k = none ∧ e = g.next then 1 else 0
+  | .lspLookup k, e => if g.pool k = none ∧ e = g.next then 1 else 0
   | _, _ => 0
 
 /-- references given back by a region, per entry -/
@@ -139,6 +140,14 @@ theorem gstep_frame {g g' : G} {l : Label} (h : gstep g l = some g') :
     · refine ⟨Nat.le_succ _, Nat.le_refl _, fun e he => ?_⟩
       have : e ≠ g.next := by omega
       simp [bumpVal, alloc, this]
+  | lspLookup k =>
+    simp only [gstep] at h
+    split at h <;> cases h
+    · exact ⟨Nat.le_refl _, Nat.le_succ _, fun e _ => by
+        rw [bumpVal_ent, updEnt_key]; split <;> simp_all⟩
+    · refine ⟨Nat.le_succ _, Nat.le_refl _, fun e he => ?_⟩
+      have : e ≠ g.next := by omega
+      simp [bumpVal, alloc, this]
   | del1 k ho =>
     cases ho with
     | none =>
@@ -185,8 +194,10 @@ theorem gstep_frame {g g' : G} {l : Label} (h : gstep g l = some g') :
   | del2 e0 =>
     simp only [gstep] at h
     split at h
-    · split at h <;> cases h <;>
-        exact ⟨Nat.le_refl _, Nat.le_succ _, fun e _ => by rw [updEnt_key]; split <;> simp_all⟩
+    · split at h
+      · cases h; exact ⟨Nat.le_refl _, Nat.le_succ _, fun e _ => by rw [updEnt_key]; split <;> simp_all⟩
+      · split at h <;> cases h <;>
+          exact ⟨Nat.le_refl _, Nat.le_succ _, fun e _ => by rw [updEnt_key]; split <;> simp_all⟩
     · cases h
   | del3 e0 =>
     simp only [gstep] at h
@@ -226,6 +237,23 @@ theorem gstep_holders {g g' : G} {l : Label} (h : gstep g l = some g') (e : Nat)
       have he' : e < g.next + 1 := he
       by_cases hn : e = g.next
       · subst hn; simp [hDec, hInc, bumpVal, alloc, newStoredEntry, hp]
+      · have : e < g.next := by omega
+        simp [hDec, hInc, bumpVal, alloc, hn, this]
+  | lspLookup k =>
+    simp only [gstep] at h
+    split at h
+    · rename_i e1 hp
+      cases h
+      have he' : e < g.next := he
+      have : ((bumpVal (updEnt g e1 fun E => { E with refs := E.refs + 1, lsWaiters := E.lsWaiters + 1 })).ent e).holders
+          = (g.ent e).holders := by
+        rw [bumpVal_ent, updEnt_holders]; split <;> simp_all
+      simp [hDec, hInc, he', hp, this]
+    · rename_i hp
+      cases h
+      have he' : e < g.next + 1 := he
+      by_cases hn : e = g.next
+      · subst hn; simp [hDec, hInc, bumpVal, alloc, newPlainEntry, hp]
       · have : e < g.next := by omega
         simp [hDec, hInc, bumpVal, alloc, hn, this]
   | del1 k ho =>
@@ -301,9 +329,13 @@ theorem gstep_holders {g g' : G} {l : Label} (h : gstep g l = some g') (e : Nat)
   | del2 e0 =>
     simp only [gstep] at h
     split at h
-    · split at h <;> cases h <;>
-        (have he' : e < g.next := he
-         simp only [hDec, hInc, he', if_true, updEnt_holders]; split <;> simp_all)
+    · split at h
+      · cases h
+        have he' : e < g.next := he
+        simp only [hDec, hInc, he', if_true, updEnt_holders]; split <;> simp_all
+      · split at h <;> cases h <;>
+          (have he' : e < g.next := he
+           simp only [hDec, hInc, he', if_true, updEnt_holders]; split <;> simp_all)
     · cases h
   | del3 e0 =>
     simp only [gstep] at h
@@ -470,6 +502,17 @@ theorem tmove_sound {nk : Nat} {g g' : G} {th th' : Thread} {ls : List Label} {e
         have hn : g'.next = g.next + 1 := by
           simp only [gstep, hp] at hg; cases hg; rfl
         exact add _ _ _ _ _ rfl rfl (fun _ => rfl) (fun e => by simp [hInc, hp]) (by omega)
+    case idle.lsp k =>
+      split at hm
+      · rename_i e1 hp
+        cases hm
+        exact same _ _ _ rfl rfl (fun _ => rfl) (fun e => by simp [hInc, hp])
+      · rename_i hp
+        cases hm
+        have hg := runLabels_single hr
+        have hn : g'.next = g.next + 1 := by
+          simp only [gstep, hp] at hg; cases hg; rfl
+        exact add _ _ _ _ _ rfl rfl (fun _ => rfl) (fun e => by simp [hInc, hp]) (by omega)
     case idle.del k => exact delStart_sound hok hm hr
     case idle.cdel k =>
       split at hm
@@ -511,16 +554,34 @@ theorem tmove_sound {nk : Nat} {g g' : G} {th th' : Thread} {ls : List Label} {e
           have herr' : (g.ent e).err = false := by simpa using herr
           exact add _ _ _ _ _ rfl rfl (fun _ => rfl) (fun e' => by simp [hInc, herr'])
             (Nat.lt_of_lt_of_le hlt (gstep_frame hg).1)
+    case lsWait.lsp e v k =>
+      split at hm
+      · cases hm
+      · split at hm
+        · rename_i herr
+          cases hm
+          exact same _ _ _ rfl rfl (fun _ => rfl) (fun e' => by simp [hInc, herr])
+        · rename_i herr
+          cases hm
+          have hg := runLabels_single hr
+          have hlt : e < g.next := gstep_guard_lt hg
+          have herr' : (g.ent e).err = false := by simpa using herr
+          exact add _ _ _ _ _ rfl rfl (fun _ => rfl) (fun e' => by simp [hInc, herr'])
+            (Nat.lt_of_lt_of_le hlt (gstep_frame hg).1)
     case delRead.del e k =>
       unfold delRead at hm
       split at hm
       · cases hm
-      · split at hm <;> (cases hm; exact same _ _ _ rfl rfl (fun _ => rfl) (fun _ => rfl))
+      · split at hm
+        · split at hm <;> (cases hm; exact same _ _ _ rfl rfl (fun _ => rfl) (fun _ => rfl))
+        · cases hm; exact same _ _ _ rfl rfl (fun _ => rfl) (fun _ => rfl)
     case delRead.cdel e k =>
       unfold delRead at hm
       split at hm
       · cases hm
-      · split at hm <;> (cases hm; exact same _ _ _ rfl rfl (fun _ => rfl) (fun _ => rfl))
+      · split at hm
+        · split at hm <;> (cases hm; exact same _ _ _ rfl rfl (fun _ => rfl) (fun _ => rfl))
+        · cases hm; exact same _ _ _ rfl rfl (fun _ => rfl) (fun _ => rfl)
     case destruct.del e v k => cases hm; exact same _ _ _ rfl rfl (fun _ => rfl) (fun _ => rfl)
     case destruct.cdel e v k => cases hm; exact same _ _ _ rfl rfl (fun _ => rfl) (fun _ => rfl)
     case idle.closeAll =>
@@ -538,7 +599,9 @@ theorem tmove_sound {nk : Nat} {g g' : G} {th th' : Thread} {ls : List Label} {e
       unfold delRead at hm
       split at hm
       · cases hm
-      · split at hm <;> (cases hm; exact same _ _ _ rfl rfl (fun _ => rfl) (fun _ => rfl))
+      · split at hm
+        · split at hm <;> (cases hm; exact same _ _ _ rfl rfl (fun _ => rfl) (fun _ => rfl))
+        · cases hm; exact same _ _ _ rfl rfl (fun _ => rfl) (fun _ => rfl)
     case destruct.closeAll e v => cases hm; exact same _ _ _ rfl rfl (fun _ => rfl) (fun _ => rfl)
 
 /-! ### the books of a whole system -/
